@@ -94,6 +94,7 @@ class P(Prop):
         (M, "TV.C05.temporal_count", "T1: for a chronological list of instants __resampleTemporal returns, without raising, exactly one observation per instant in (tini, tfin], in order, stamped with it"),
         (M, "TV.C05.temporal_count_any_order", "T1': on a track whose stamps never decrease, instants requested in ANY order (repetitions included) each get exactly one observation when in (tini, tfin], in request order, stamped with the instant (fix ee0419b)"),
         (M, "TV.C05.temporal_bracket", "T2: with strictly increasing stamps the sample at t uses the unique leg r>=1 with T[r-1] < t <= T[r] (positive denominator) and is P[r-1] + ((t-T[r-1])/(T[r]-T[r-1]))(P[r]-P[r-1]) in x, y, z"),
+        (M, "TV.C05.temporal_repeated_stamps", "T2': stamps that never decrease but may repeat, any track length: the sample at t in (tini, tfin] is interpolated between two fixes CONSECUTIVE in the order of the track, P[r-1] and P[r], the unique leg with T[r-1] < t <= T[r] (never of zero duration); every fix before P[r] is stamped < t and every fix from P[r] on is stamped > T[r-1] (the leg ends at the first fix stamped >= t and starts at the last fix carrying T[r-1]: the track is never re-ordered); an instant that is a stamp of the track gets the position of the first fix carrying it"),
         (M, "TV.C05.temporal_number_step", "T1/T2 for a numeric step d>0: prepareTimeSampling + the loop return exactly the samples at tini+d, ..., tini+Kd with tini+Kd <= tfin < tini+(K+1)d"),
         (M, "TV.C05.temporal_outside", "D1: requested instants all outside (tini, tfin] yield no observation and no exception, for every non-empty track, any order"),
         (M, "TV.C05.temporal_degenerate", "D2: empty list / reference track without observation / argument of another type return the empty track; a reference Track is read through its stamps only (one observation = the one-instant list); a one-fix track answers every list with the empty track"),
@@ -104,6 +105,10 @@ class P(Prop):
         (M, "TV.C05.spatial_on_polyline", "T3: the sample at abscissa s in (0,L] lies on the unique leg r with S[r-1] < s <= S[r], of positive length, at fraction f in (0,1], at curvilinear abscissa s; x, y, z, t interpolated with f"),
         (M, "TV.C05.spatial_pause", "T3d: pauses (repeated positions): the leg used ends at the FIRST fix at or beyond s (a sample on a pause is the fix where the pause begins, with its z and t) and starts at the LAST fix of its start abscissa (a sample beyond a pause is interpolated in z and t from the fix that ends the pause); never a zero-length leg"),
         (M, "TV.C05.spatial_time_monotone", "T4: with non-decreasing stamps the timestamps of the spatially resampled track never decrease"),
+        (M, "TV.C05.spatial_equal_stamp_leg", "T3e: a spatial sample taken on a leg whose two fixes carry the same timestamp is stamped with exactly that timestamp (exact arithmetic; in any arithmetic since the fix commit 20ed89f, see T4')"),
+        (M, "TV.C05.spatial_clamp_exact", "T4c: the clamp T = min(max(T, t_bwd), t_fwd) of the fix commit 20ed89f is a no-op in exact arithmetic (stamps t_bwd <= t_fwd): the weighted mean already lies between the two stamps and equals the linear interpolation, so T3a/T3/T3d/T3e/T4/S2 describe the repaired code"),
+        (M, "TV.C05.spatial_time_clamped", "T4': WITHOUT exact arithmetic (any linearly ordered scalar type with four arbitrary operations, e.g. rounding doubles): with stamps that never decrease every time handed to readUnixTime by __resampleSpatial lies between the stamps of the two fixes of its leg, the legs never go backwards, outputs on different legs are in chronological order, an output on a leg travelled in no time carries exactly its stamp, none is earlier than the first fix; only two samples of one leg of positive duration are not ordered by the clamp alone (T4, exact)"),
+        (M, "TV.C05.spatial_stamps_monotone", "S2: spatial mode, stamps that never decrease (repeats allowed), not before 1970: the outputs carry the calendar stamps readUnixMs(m) with m = floor(1000 t) the millisecond of the interpolated time; these m never decrease along the output and each stamp is well formed and reads back as m ms: the stamps actually carried never decrease (exact arithmetic)"),
         (M, "TV.C05.spatial_legs", "T3b: the accumulated leg lengths are the non-negative 2D distances (square = dx^2+dy^2) for any sqrt meeting math.sqrt's contract"),
         (M, "TV.C05.spatial_distance_along_leg", "T3c: the point at fraction f of a leg is at planimetric distance f|ab| from its start, so with T3 the sample k lies at distance k ds along the original 2D polyline"),
         (M, "TV.C05.frontend", "Track.resample: feature table reset to empty (the dispatcher interpolation.resample alone leaves it as it was); explicit delta = the private routine (spatial + non-numeric step = TypeError); delta=None = the call with step (1+1e-8) D/npts"),
@@ -116,9 +121,9 @@ class P(Prop):
     partial = []
     open_statements = [
         "IEEE rounding is outside the theorems (ordered field): float overshoot int(L/ds)*ds > L (repaired by the fix commits 6fb91a5 + 3031a33: bounded scan and abscissa clamped to L, both mirrored by the model and proved to be no-ops in exact arithmetic; their effect in floats is covered by the Float-model correspondence and the oracle), loss of the (1+1e-8) guard on epoch-scale stamps and the truncation int((t - int(t))*1000) of the millisecond field to m-1 for some whole-millisecond instants are only sampled by the transfer check (1 ms tolerance)",
-        "spatial mode: the stamp of an output is readUnixTime of an interpolated, generally non-integral number of milliseconds; the model stamps with floor(1000 t) by definition (stampOf), no theorem beyond T3/T4 on t itself",
+        "spatial mode: the stamp of an output is readUnixTime of an interpolated, generally non-integral number of milliseconds; the model stamps with floor(1000 t) by definition (stampOf); S2 proves that these stamps never decrease and read back as floor(1000 t) ms in exact arithmetic; in floats the truncation int((t - int(t))*1000) is only sampled (1 ms tolerance); the former finding spatial-equal-stamp-leg-ms-decrease (on a leg travelled in no time wbwd*t + wfwd*t fell one ulp below t and the output stamps read m, m-1, m) is repaired by 20ed89f and T4' proves, for any arithmetic, that times on different legs or on a no-time leg never decrease; the order of two samples of ONE leg of positive duration in floats (monotonicity of the rounded weighted mean) is only sampled by the oracle",
     ]
-    modelled = ("tracklib/algo/interpolation.py prepareTimeSampling (number / list / Track / other argument), __resampleTemporal, __resampleSpatial, "
+    modelled = ("tracklib/algo/interpolation.py prepareTimeSampling (number / list / Track / other argument), __resampleTemporal, __resampleSpatial (bounded scan, clamped abscissa, interpolated time clamped to the two stamps of its leg -- 20ed89f), "
                 "the ALGO_LINEAR branches of the dispatcher resample() (including that it leaves the feature table untouched), sample(), synchronize() "
                 "(common range with Python's max/min, argsort as a sort of values, the de-duplication loop as written); tracklib/core/track.py Track.resample "
                 "(`delta is None` -> npts/factor with the (1+1e-8) guard, SRID read, dispatcher call, reset of the feature table), Track.__floordiv__, __pow__, "
@@ -129,7 +134,11 @@ class P(Prop):
                "C05: for synchronize() the oracle holds each track against the property for the request that track actually received, recorded at the door of "
                "Track.resample (which instants synchronize chooses is checked by the correspondence with the model, theorem synchronize_spec)"]
     rule = ("ENU tracks of 1..8 fixes on an integer/dyadic lattice (3-4-5 and axis-parallel legs, repeated positions), strictly increasing "
-            "irregular timestamps on a 1/8 s grid from 1970 on (year ends included); steps as number (int or float, dividing or not), list of instants "
+            "irregular timestamps on a 1/8 s grid from 1970 on (year ends included); LONG tracks of 17..200 fixes (sizes around 16/17, 32/33, 64/65, 128/129 and random) whose "
+            "consecutive fixes share a timestamp (one pair at every position, a quarter of the pairs, every stamp doubled = 2 Hz on a 1 s clock, runs of up to 5) and/or a position "
+            "(independently, exactly the same pairs = doubled records, or only the others), lattice and float, requested at one instant inside EVERY leg (list / reference track, "
+            "in order or shuffled; Track.resample, interpolation.resample, //, sample, synchronize, collection //), by numeric step, npts, and in spatial mode; the oracle "
+            "interpolates in the ORIGINAL order of the fixes (stamps that never decrease are inside the oracle; at a repeated stamp any value of the jump is admissible); steps as number (int or float, dividing or not), list of instants "
             "(before/at/after the ends, duplicates, any order), reference track, npts/factor; temporal and spatial; degenerate requests (empty list, empty / one-observation / "
             "unsorted reference track, all instants outside the range, one instant repeated, the track itself as reference, its own stamps, a tuple, a list in spatial mode, "
             "delta together with npts/factor, a step >= the whole range); every entry point that delegates to linear resampling (Track.resample, interpolation.resample, "
@@ -157,6 +166,7 @@ class P(Prop):
                 "histories: on one 5-fix lattice track, abs_curv cached (or a user feature abs_curv / ds) followed by every single edit of {scale 1/2,2,3; remove i; setx i; sety i} x ds in {1, 5/2} spatial and step 3/2 temporal",
                 "spatial: every sequence of 2..3 legs from {0, 2 (axis), 5 (3-4-5), 10 (6-8-10)} x ds in {1/2,1,2,5/2,5,7,20}",
                 "degenerate requests: on the stamps (0,2,3,5) every reference of 0, 1 or 2 instants of the half-second grid -1..6 s x {list (with and without npts), reference Track, track // ref, interpolation.resample with a feature table}",
+                "long tracks: zigzag 1 Hz tracks of 17, 20, 30 fixes (thorough: 12 sizes up to 100) in which fixes d-1 and d share a timestamp, for EVERY d (a third of them also as an identical doubled record), requested a quarter of a second inside every leg and at the repeated stamp; 2 Hz tracks with a 1 s clock of every size 17..40 (thorough: ..100) requested at every half second (list, track // ref, step 1/4 s)",
                 "synchronize: every pair of stamp sets of 2..3 whole seconds from {0..5} (all ways two time ranges can meet: disjoint, touching, one fix or none inside the common range, shared stamps, identical)"]
 
     def mk_case(self, kind, pts, mode, delta=None, npts=None, factor=1, feat=False, via=None, others=None):
@@ -410,6 +420,152 @@ class P(Prop):
             t += rng.randrange(1, 60000)
         return pts
 
+    # ---- long tracks (17..200 fixes): repeated timestamps / repeated positions / both, at every position.
+    # Nothing in the property depends on the size of the track, but library routines a resampling may lean on do (numpy's sorts
+    # change algorithm above 16 elements and are then not stable, buffers grow, ...): sizes beyond every small-case threshold,
+    # with the repeats placed everywhere, and requests that visit EVERY leg of the track.
+    LONG_N_QUICK = [17, 17, 18, 19, 20, 24, 30, 33, 40, 48, 64, 65, 100, 129, 200]
+    TPATS = ["strict", "one", "one", "some", "some", "all2", "runs"]
+    PPATS = ["distinct", "distinct", "pauses", "twin", "anti"]
+
+    def long_track(self, rng, n, lattice=True, tpat="some", ppat="distinct", base=None):
+        """n fixes in chronological order. tpat: which consecutive fixes share a timestamp (strict: none; one: a single pair, anywhere;
+        some: each pair with probability 1/4; all2: every stamp carried by two fixes -- a 2 Hz receiver with a 1 s clock; runs: runs of
+        1..5 equal stamps). ppat: which consecutive fixes share a position (distinct: none; pauses: each pair with probability 1/5,
+        independently of the stamps; twin: exactly the pairs that share a stamp -- a doubled record; anti: only pairs that do not)."""
+        t = self.rand_base(rng) if base is None else base
+        if tpat == "strict":
+            same = [False] * n
+        elif tpat == "one":
+            d = rng.randrange(1, n)
+            same = [i == d for i in range(n)]
+        elif tpat == "all2":
+            same = [i % 2 == 1 for i in range(n)]
+        elif tpat == "runs":
+            same, i = [], 0
+            while len(same) < n:
+                same += [False] + [True] * rng.choice([0, 0, 1, 1, 2, 4])
+            same = same[:n]
+        else:
+            same = [i > 0 and rng.random() < 0.25 for i in range(n)]
+        same[0] = False
+        if lattice:
+            sc = rng.choice([0.5, 1.0, 1.0, 2.0])
+            x, y = float(rng.randrange(-20, 21)), float(rng.randrange(-20, 21))
+            z = float(rng.randrange(-8, 9))
+            moves = [v for v in VECS if v != (0, 0)]
+        else:
+            x, y, z = rng.uniform(-1000, 1000), rng.uniform(-1000, 1000), rng.uniform(-50, 50)
+        pts = []
+        for i in range(n):
+            if i > 0:
+                if not same[i]:
+                    t += (rng.choice([1, 2, 4, 8, 12, 20, 28, 56, 80]) * 125) if lattice else rng.randrange(1, 60000)
+                still = {"distinct": False, "pauses": rng.random() < 0.2, "twin": same[i],
+                         "anti": (not same[i]) and rng.random() < 0.25}[ppat]
+                if not still:
+                    if lattice:
+                        vx, vy = rng.choice(moves)
+                        x += sc * vx; y += sc * vy
+                    else:
+                        x += rng.uniform(-60, 60) or 1.0; y += rng.uniform(-60, 60)
+                if not (still and ppat == "twin" and rng.random() < 0.5):     # (half of the doubled records are identical in z too)
+                    z = (float(rng.randrange(-16, 17)) / rng.choice([1, 2, 4])) if lattice else rng.uniform(-50, 50)
+            pts.append([x, y, z, t])
+        return pts
+
+    def every_leg_instants(self, rng, pts, grid_ms=125):
+        """one instant strictly inside every leg of positive duration (or its end when the leg lasts one grid step), plus some stamps"""
+        out = []
+        for a, b in zip(pts, pts[1:]):
+            gap = b[3] - a[3]
+            if gap <= 0:
+                continue
+            k = gap // grid_ms
+            out.append(a[3] + (rng.randrange(1, k) if k >= 2 else 1) * grid_ms if k >= 1 else b[3])
+        for _ in range(rng.choice([0, 2, 5])):
+            out.append(rng.choice(pts)[3])
+        return sorted(out)
+
+    def rand_long(self, rng, tier):
+        lattice = rng.random() < 0.75
+        n = rng.choice(self.LONG_N_QUICK) if tier == "quick" or rng.random() < 0.5 else rng.randrange(17, 201)
+        tpat, ppat = rng.choice(self.TPATS), rng.choice(self.PPATS)
+        pts = self.long_track(rng, n, lattice, tpat, ppat)
+        pre = "long-" if lattice else "f-long-"
+        g = 125 if lattice else 1
+        dur = Fraction(pts[-1][3] - pts[0][3], 1000)
+        c = rng.randrange(12)
+        if c <= 2:      # every leg visited, in chronological order or not, as a list or as a reference track
+            l = self.every_leg_instants(rng, pts, g)
+            if rng.random() < 0.3:
+                rng.shuffle(l)
+            form = rng.choice(["list", "list", "track"])
+            via = rng.choice(["resample", "resample", "interp"] + (["floordiv"] if form == "track" else []))
+            return self.mk_case(pre + "legs", pts, 2, {form: l}, feat=rng.random() < 0.2, via=None if via == "resample" else via)
+        if c == 3:      # a numeric step of about half the mean sampling interval
+            step = max(Fraction(1, 8), Fraction(dur / (2 * n)).limit_denominator(8)) if dur > 0 else Fraction(1)
+            return self.mk_case(pre + "temporal-num", pts, 2, {"num": float(step)})
+        if c == 4:
+            return self.mk_case(pre + "temporal-list", pts, 2, {"list": self.rand_instants(rng, pts, g)})
+        if c == 5:      # a single instant, through sample()
+            l = self.every_leg_instants(rng, pts, g)
+            return self.mk_case(pre + "sample", pts, 2, {"list": [rng.choice(l)] if l else [pts[0][3]]}, via="sample")
+        if c == 6:
+            if rng.random() < 0.5:
+                return self.mk_case(pre + "pow", pts, 2, None, rng.choice([n, 2 * n, n // 2, 16, 17]), 1, via="pow")
+            return self.mk_case(pre + "npts", pts, rng.choice([1, 2]), None, rng.choice([None, n, 2 * n + 1, 17]), rng.choice([1, 2]))
+        if c == 7:      # synchronize with another long track whose range overlaps
+            m = rng.choice([17, 18, 24, 40])
+            other = self.long_track(rng, m, lattice, rng.choice(self.TPATS), rng.choice(self.PPATS), base=pts[rng.randrange(n)][3])
+            return self.mk_case(pre + "sync", pts, 2, None, via="sync", others=[other])
+        if c == 8:      # collection // reference: each long track at the stamps of the first one's legs
+            m = rng.choice([17, 20, 33])
+            other = self.long_track(rng, m, lattice, rng.choice(self.TPATS), rng.choice(self.PPATS), base=pts[rng.randrange(n)][3])
+            return self.mk_case(pre + "collfloordiv", pts, 2, {"track": self.every_leg_instants(rng, pts, g)}, via="collfloordiv", others=[other])
+        # spatial: a step of about half the mean leg (so that every leg of positive length is visited), or a dividing one
+        L = self.len2d(pts)
+        if L == 0:
+            return self.mk_case(pre + "spatial-num", pts, 1, {"num": 1.0})
+        if lattice:
+            step = float(L / rng.choice([n, 2 * n, 3 * n - 1])) if c == 9 else float(max(Fraction(1, 8), Fraction(L / (2 * n)).limit_denominator(8)))
+        else:
+            step = float(L) / rng.choice([n, 2 * n, 3 * n - 1]) if c == 9 else max(0.5, rng.uniform(0.3, 1.5) * float(L) / n)
+        return self.mk_case(pre + "spatial-num", pts, 1, {"num": step}, feat=rng.random() < 0.2)
+
+    def long_exhaustive(self, tier):
+        """1 Hz zigzag tracks (legs 3-4-5, every fix distinct in x, y and z) of n fixes in which the fixes d and d+1 share a timestamp, for EVERY
+        position d; and 2 Hz tracks with a 1 s clock (every stamp carried by two fixes), every n. Temporal: one instant a quarter of a second
+        inside every leg, plus the repeated stamp itself; spatial: two samples per leg."""
+        out = []
+        base = 86400000 * 366
+        sizes = (17, 20, 30) if tier == "quick" else (17, 18, 19, 20, 24, 30, 33, 40, 60, 64, 65, 100)
+
+        def zig(secs, twin_at=None):
+            pts, x, y = [], 0.0, 0.0
+            for i, sec in enumerate(secs):
+                if i > 0 and i != twin_at:
+                    x += 3.0; y += (4.0 if i % 3 else -4.0)
+                pts.append([x, y, float(i % 7) - 2.0 if i != twin_at else pts[-1][2], base + 1000 * sec])
+            return pts
+        for n in sizes:
+            for d in range(1, n):
+                secs = [i if i < d else i - 1 for i in range(n)]
+                for twin in ((None, d) if (d % 3 == 0) else (None,)):
+                    pts = zig(secs, twin)
+                    inst = sorted(set([pts[i][3] + 250 for i in range(n - 1) if pts[i + 1][3] > pts[i][3]] + [pts[d][3]]))
+                    out.append(self.mk_case("x-long-onedup-temporal", pts, 2, {"list": inst}))
+                    if d % 3 != 1 or tier != "quick":
+                        out.append(self.mk_case("x-long-onedup-spatial", pts, 1, {"num": 2.5}))
+        for n in (range(17, 41) if tier == "quick" else range(17, 101)):
+            pts = zig([i // 2 for i in range(n)])
+            last = pts[-1][3]
+            inst = [v for v in range(base + 500, last + 1, 500)]
+            out.append(self.mk_case("x-long-2hz-temporal", pts, 2, {"list": inst}))
+            out.append(self.mk_case("x-long-2hz-floordiv", pts, 2, {"track": inst[::2]}, via="floordiv"))
+            out.append(self.mk_case("x-long-2hz-num", pts, 2, {"num": 0.25}))
+        return out
+
     def rand_instants(self, rng, pts, grid_ms=125):
         t0, t1 = pts[0][3], pts[-1][3]
         span = max(t1 - t0, grid_ms)
@@ -540,6 +696,10 @@ class P(Prop):
             out.append(self.rand_degenerate(rng))
         for _ in range(n):
             out.append(self.rand_via(rng))
+        # long tracks: sizes beyond every small-case threshold, repeated stamps / positions everywhere
+        out += self.long_exhaustive(tier)
+        for _ in range(n if tier == "quick" else n // 3):
+            out.append(self.rand_long(rng, tier))
         if self.include_unsorted:
             for _ in range(n // 10):
                 pts = self.rand_track(rng, n=rng.choice([3, 4, 5]))
@@ -724,7 +884,17 @@ class P(Prop):
         return t
 
     def _describe(self, case):
-        t = {"kind": case["kind"], "n": len(case["pts"]), "mode": case["mode"]}
+        pts = case["pts"]
+        n = len(pts)
+        t = {"kind": case["kind"], "n": n if n <= 8 else "9-16" if n <= 16 else "17-32" if n <= 32 else "33-64" if n <= 64 else "65-200",
+             "mode": case["mode"]}
+        nt = sum(1 for a, b in zip(pts, pts[1:]) if a[3] == b[3])
+        np_ = sum(1 for a, b in zip(pts, pts[1:]) if a[:2] == b[:2])
+        nb = sum(1 for a, b in zip(pts, pts[1:]) if a[3] == b[3] and a[:2] == b[:2])
+        t["same_stamp_pairs"] = "0" if nt == 0 else "1" if nt == 1 else "2+" if 2 * nt < n - 1 else "half+"
+        t["same_position_pairs"] = "0" if np_ == 0 else "1" if np_ == 1 else "2+"
+        if nb:
+            t["same_stamp_and_position"] = "yes"
         e = self.expected(case)
         if e is not None:
             t["expected_len"] = min(len(e["req"]), 12)
@@ -1060,8 +1230,12 @@ class P(Prop):
         if mode not in (1, 2) or len(pts) < 2:
             return None
         T = [Fraction(p[3], 1000) for p in pts]
-        if any(b <= a for a, b in zip(T, T[1:])):
-            return None
+        if any(b < a for a, b in zip(T, T[1:])):
+            return None         # not chronological: outside the property
+        # Stamps that never decrease but repeat (a receiver logging faster than its clock resolution, a doubled record) keep
+        # the piecewise-linear interpolant well defined IN THE ORDER OF THE FIXES: an instant t with T[j-1] < t <= T[j] lies
+        # between the fixes j-1 and j of the track as given. At an instant that IS a repeated stamp the interpolant jumps
+        # (from the first to the last fix carrying that stamp): any value of the jump is admissible (validated, not compared).
         d = case["delta"]
         if d is not None and "other" in d:
             return None         # neither a number, a list nor a Track: outside the forms the property quantifies over
@@ -1121,7 +1295,7 @@ class P(Prop):
                 if v > V[-1] or (tau > 0 and v > V[-1] - tau):
                     optional = True
             plo = self._param_lo(V, max(V[0], v - tau))
-            phi = self._param_hi(V, min(V[-1], v + tau)) if (tau > 0 or mode == 1) else plo
+            phi = self._param_hi(V, min(V[-1], v + tau))     # = plo unless v (+- tau) meets a vertex / a repeated abscissa
             if phi < plo:
                 phi = plo
             params = [plo, phi] + [Fraction(i) for i in range(int(plo) + 1, int(phi) + 1)]
@@ -1145,7 +1319,7 @@ class P(Prop):
                 return None             # some track is outside the property's preconditions: no demand on the call
             if via == "sample" and not exps[0]["req"]:
                 return None             # sample() at an instant outside (tini, tfin]: the property does not say what it returns
-            return "raised %s (%s) on %s with strictly increasing stamps" % (
+            return "raised %s (%s) on %s whose stamps never decrease" % (
                 out["err"], out.get("detail", ""), "tracks" if len(subs) > 1 else "a track")
         outs = out["tracks"] if "tracks" in out else [out]
         if via == "sync" and out.get("requests"):
